@@ -106,10 +106,10 @@ def live_scales(M):
 
 
 def tasks(tier):
-    return [{"name": f"fp-{i}", "fn": "fp", "case": i} for i in range(len(CASES))]
+    return [{"name": f"fp-{i}", "fn": "fp", "case": i, "cross": tier == "thorough"} for i in range(len(CASES))]
 
 
-def run_case(i, timeout_s=1200):
+def run_case(i, timeout_s=1200, cross=False):
     G = shimmed()
     name, getenc, scale, signed = CASES[i]
     ent = {"name": f"K-FP {name}", "queries": 1, "obligations": 1, "discharged": 0,
@@ -146,6 +146,13 @@ def run_case(i, timeout_s=1200):
     ent["sample"] = f"forall k: {name}(float(k/{scale})) == int16/uint16 bytes of k  -> {r}"
     if r == z3.unsat:
         ent["discharged"] = 1
+        if cross:
+            from vf.smt2 import cvc5_recheck
+            second = cvc5_recheck(s, "QF_BVFP", 600)
+            ent["second_solver"] = second
+            if second["result"] not in ("unsat", "unavailable"):
+                ent["discharged"] = 0
+                ent["inconclusive"] = f"cvc5 answered {second['result']} where z3 answered unsat"
     elif r == z3.sat:
         kv = s.model().eval(k, model_completion=True).as_signed_long()
         rep = replay({"inputs": {"k": kv}, "params": {"case": i}})
@@ -158,7 +165,7 @@ def run_case(i, timeout_s=1200):
 
 
 def run_task(task):
-    return {"lemmas": [run_case(task["case"])]}
+    return {"lemmas": [run_case(task["case"], cross=task.get("cross", False))]}
 
 
 def replay(case):
